@@ -40,6 +40,7 @@ def case_strategy(draw, tier="quick"):
     dims = sch["dims"]
     nv = len(vars_)
     busy = [np.zeros([d if d else 8 for d in [dims[i] for i in v["dims"]]], dtype=bool) for v in vars_]
+    gbusy = [np.zeros_like(b) for b in busy]      # elements read by pending igets (overlapping gets in one wait = C02 finding F04)
     pend_put, pend_get = [0] * nv, [0] * nv
     pending = {}
     ops = []
@@ -75,6 +76,8 @@ def case_strategy(draw, tier="quick"):
                 vi = pst["req"]["var"]
                 if pst["kind"] == "iget":
                     pend_get[vi] -= 1
+                    if len(pst["idx"]):
+                        gbusy[vi][tuple(pst["idx"].T)] = False
                 else:
                     pend_put[vi] -= 1
                     idx = pst["idx"]
@@ -106,6 +109,8 @@ def case_strategy(draw, tier="quick"):
         idx = M.box_indices(s, c, sd)
         if isput and len(idx) and busy[vi][tuple(idx.T)].any():
             continue
+        if kind == "iget" and len(idx) and gbusy[vi][tuple(idx.T)].any():
+            continue
         from checks.c01 import req_for
         rq = draw(req_for(v, vi, shape, s, c, sd, is_rec, numrecs))
         if rq["form"] == "vard" or (rq["form"] == "var" and is_rec):
@@ -128,6 +133,7 @@ def case_strategy(draw, tier="quick"):
                 pending[rid] = {"kind": kind, "req": rq, "idx": idx, "top": top, "xbytes": xbytes}
                 if kind == "iget":
                     pend_get[vi] += 1
+                    gbusy[vi][tuple(idx.T)] = True
                 else:
                     pend_put[vi] += 1
                     busy[vi][tuple(idx.T)] = True
